@@ -31,7 +31,7 @@ def ObjOK (rs : Str → Str → Str) (base : Str) : Term β → Prop
   | .iri i => IriOK rs base i
   | .bnode _ => True
   | .lit _ dt (some l) => l ≠ [] ∧ dt = rdfLangString
-  | .lit lex dt none => dt = xsdString ∨ (lex ≠ [] ∧ IriOK rs base dt)
+  | .lit lex dt none => dt = xsdString ∨ (lex ≠ [] ∧ IriOK rs base dt ∧ dt ≠ rdfLangString ∧ dt ≠ rdfDirLangString)
 
 /-- A triple of the fragment: the predicate splits into a namespace and an NCName such that the
     element name is a propertyElementURI other than `rdf:li` (`predOK`, executable). -/
